@@ -242,11 +242,13 @@ Proof.
   unfold py_mul, PyMul_list. change (Z.to_nat 2) with 2%nat. cbn [repeat_app]. now rewrite app_nil_r.
 Qed.
 
-Theorem DNARegex_search_eq items rec (pos endpos : nat) linear :
-  DNARegex_search items rec (Z.of_nat pos) (Z.of_nat endpos) linear =
+Theorem DNARegex_search_eq items rec (pos : nat) (endpos : Z) linear :
+  0 <= endpos ->
+  DNARegex_search items rec (Z.of_nat pos) endpos linear =
   Ok (option_map (fun m => mk_SeqMatch m rec)
-        (search items (pr_seq rec) (negb linear || is_CircularRecord rec) pos endpos)).
+        (search items (pr_seq rec) (negb linear || is_CircularRecord rec) pos (Z.to_nat endpos))).
 Proof.
+  intros Hend.
   unfold DNARegex_search, search. cbn [py_isinstance_seq_or_record negb bind].
   set (s := pr_seq rec). set (n := List.length s).
   assert (Hdata : (if is_SeqRecord rec then Ok (py_str (py_seq rec)) else Ok (py_str rec)) = Ok s)
@@ -257,13 +259,14 @@ Proof.
   { destruct circ; [|reflexivity]. now rewrite py_mul_2. }
   rewrite Hd2. cbn [bind]. set (data := if circ then s ++ s else s).
   unfold py_len_of at 1, PyLen_rec, py_len. fold s n.
-  rewrite <- Nat2Z.inj_min.
-  destruct (Nat.le_gt_cases (Nat.min n endpos) pos) as [Hle|Hgt].
+  replace (Z.min (Z.of_nat n) endpos) with (Z.of_nat (Nat.min n (Z.to_nat endpos))) by lia.
+  set (stop := Nat.min n (Z.to_nat endpos)).
+  destruct (Nat.le_gt_cases stop pos) as [Hle|Hgt].
   - rewrite py_range_nil by lia. cbn.
-    replace (Nat.min n endpos - pos)%nat with 0%nat by lia. reflexivity.
-  - replace (Nat.min n endpos) with (pos + (Nat.min n endpos - pos))%nat at 1 by lia.
+    replace (stop - pos)%nat with 0%nat by lia. reflexivity.
+  - replace stop with (pos + (stop - pos))%nat at 1 by lia.
     rewrite (search_loop items data rec n) by reflexivity. cbn [bind].
-    destruct (scan items (skipn pos data) n pos (Nat.min n endpos - pos)); reflexivity.
+    destruct (scan items (skipn pos data) n pos (stop - pos)); reflexivity.
 Qed.
 
 (* ---------- CircularRecord.__contains__ ------------------------------------ *)
